@@ -951,6 +951,7 @@ func (g *sessGen) randomInbound(via string) {
 			h.orig = "@" + strconv.Itoa(r.rangeInt(25, 60)) // later than SendingTime
 		} else if r.chance(1, 7) {
 			h.orig = "garbage" // a duplicate whose OrigSendingTime does not read as a time: rejected, and nothing consumed
+			h.defective = true // (no claim about the validator's verdict for this message)
 			g.o.kind("possdup-low.orig-garbled")
 		}
 	}
